@@ -24,8 +24,8 @@ func winupd(from string, id, inc uint32) Op {
 	return Op{From: from, Kind: "winupd", ID: id, Inc: inc, Valid: true}
 }
 
-var reqFields = []Field{{":method", "POST", false}, {":scheme", "https", false}, {":path", "/a", false}, {":authority", "example.com", false}, {"x-k", "v1", false}}
-var respFields = []Field{{":status", "200", false}, {"content-type", "text/plain", false}}
+var reqFields = []Field{{N: ":method", V: "POST"}, {N: ":scheme", V: "https"}, {N: ":path", V: "/a"}, {N: ":authority", V: "example.com"}, {N: "x-k", V: "v1"}}
+var respFields = []Field{{N: ":status", V: "200"}, {N: "content-type", V: "text/plain"}}
 
 // NamedCase is a corpus entry.
 type NamedCase struct {
@@ -46,7 +46,13 @@ func Corpus() []NamedCase {
 		{"max-frame-size-0", []Op{invalidMax, hdr("C", 1, false, nil), data("C", 1, 5, true)}, false},
 		{"headers-continuation-no-end-stream", []Op{hdr("C", 1, false, reqFields, 3), data("C", 1, 4, true)}, true},
 		{"response-trailers", []Op{hdr("C", 1, true, reqFields), hdr("S", 1, false, respFields), data("S", 1, 20, false),
-			hdr("S", 1, true, []Field{{"grpc-status", "0", false}}, 2)}, true},
+			hdr("S", 1, true, []Field{{N: "grpc-status", V: "0"}}, 2)}, true},
+		{"table-size-lowered-before-ack", []Op{hdr("C", 1, true, reqFields), settings("S", 1, 0), hdr("C", 3, true, reqFields), ack("C"),
+			hdr("C", 5, true, reqFields)}, true},
+		{"push-promise-continuation", []Op{hdr("C", 1, true, reqFields),
+			{From: "S", Kind: "push", ID: 1, Promise: 2, Fields: reqFields, Splits: []int{5}, Valid: true}}, true},
+		{"max-frame-size-lowered-while-queued", []Op{settings("S", 4, 10, 5, 32768), ack("C"), hdr("C", 1, false, reqFields),
+			data("C", 1, 30000, true), settings("S", 5, 16384), ack("C"), winupd("S", 1, 40000)}, true},
 		{"window-blocking", []Op{settings("S", 4, 10), ack("C"), hdr("C", 1, false, reqFields), data("C", 1, 25, true),
 			winupd("S", 1, 5), winupd("S", 1, 10), winupd("S", 0, 1)}, true},
 	}
